@@ -105,6 +105,7 @@ structure Ann where
   assignedOk : Bool      -- every assigned shard index occurs in the manifest
   hasEndpoint : Bool
   hasAssigned : Bool
+  keepsReadable : Bool := true   -- manifest_keeps_held_chunk_readable: false only for a held chunk and a foreign manifest
 deriving Repr, DecidableEq, Inhabited
 
 inductive Reject where
@@ -166,8 +167,8 @@ def upsert (l : List (String × String)) (k v : String) : List (String × String
 
 /-- the state changes of the accepting branch of `handle_announce` -/
 def applyAccepted (o : Obs) (a : Ann) : Obs :=
-  { cache := upsert o.cache a.chunk a.man,
-    shares := upsert o.shares a.chunk a.man,
+  { cache := if a.keepsReadable then upsert o.cache a.chunk a.man else o.cache,
+    shares := if a.keepsReadable then upsert o.shares a.chunk a.man else o.shares,
     contacts := if a.hasEndpoint then (a.chunk, a.peer) :: o.contacts.filter (fun e => !(e.1 == a.chunk && e.2 == a.peer)) else o.contacts,
     pending := if a.hasAssigned then upsert o.pending a.chunk a.peer else o.pending }
 
